@@ -196,6 +196,40 @@ def instances(env, cfg, family, B, seed):
                     td["distance_limit"] = dl
             return td
         return td
+    if family == "twins":
+        # near-coincident customer pairs (a, a') with a tight window on a': a opens late (every vehicle waits for it), a' closes
+        # 0.6*delta after a's service ends while a' lies delta away from a - so a' is infeasible right after a by a margin
+        # of 0.4*delta, which is above the oracle's band and far above float32 rounding of a correct distance
+        if name == "cvrptw" and not cfg.get("scale", False) and n >= 4:
+            tw, locs = td["time_windows"].clone(), td["locs"].clone()
+            delta = 0.09
+            for k in range(min(3, n // 2)):
+                a, a2 = 2 * k, 2 * k + 1
+                ang = torch.rand(B, generator=g) * 6.2831853
+                locs[:, a2] = locs[:, a] + delta * torch.stack((ang.cos(), ang.sin()), 1)
+                Ta = 200.0 + 10.0 * k
+                tw[:, a + 1, 0], tw[:, a + 1, 1] = Ta, Ta + 50.0
+                tw[:, a2 + 1, 0], tw[:, a2 + 1, 1] = 0.0, Ta + float(td["durations"][0, a + 1]) + 0.6 * delta
+            td["locs"], td["time_windows"] = locs, tw
+            return td
+        if name == "mtvrp" and n >= 4:
+            tw, locs = td["time_windows"].clone(), td["locs"].clone()
+            has_tw = torch.isfinite(tw[:, 1:, 1]).any(-1)
+            delta = 6e-4
+            for b in range(B):
+                if not bool(has_tw[b]):
+                    continue
+                sp = float(td["speed"].reshape(B)[b])
+                for k in range(min(2, n // 2)):
+                    a, a2 = 1 + 2 * k, 2 + 2 * k  # locs carry the depot at index 0
+                    ang = float(torch.rand(1, generator=g)) * 6.2831853
+                    locs[b, a2] = locs[b, a] + delta * torch.tensor([math.cos(ang), math.sin(ang)])
+                    Ta = 1.0 + 0.1 * k
+                    tw[b, a, 0], tw[b, a, 1] = Ta, Ta + 0.5
+                    tw[b, a2, 0], tw[b, a2, 1] = 0.0, Ta + float(td["service_time"][b, a]) + 0.6 * delta / sp
+            td["locs"], td["time_windows"] = locs, tw
+            return td
+        return td
     if family == "degenerate":
         if "locs" in td.keys() and td["locs"].dim() == 3:
             locs = td["locs"].clone()
